@@ -243,3 +243,41 @@ pub fn run_sched_race(body: &[Sexp]) -> String {
   }
   "ok".into()
 }
+
+/// (unsub_race ROUNDS): a `create` source emitting from its subscribe function on a pool thread
+/// (subscribe_on) while the subscription is unsubscribed from another thread: unsubscribe() may wait for
+/// the running task, but once it has returned the subscriber must stay silent.
+pub fn run_unsub_race(body: &[Sexp]) -> String {
+  let rounds = body[0].usize();
+  let pool = FuturesThreadPoolScheduler::new().unwrap();
+  for _ in 0..rounds {
+    let returned = Arc::new(AtomicBool::new(false));
+    let late = Arc::new(AtomicUsize::new(0));
+    let (inside_tx, inside_rx) = std::sync::mpsc::channel::<()>();
+    let (fin_tx, fin_rx) = std::sync::mpsc::channel::<()>();
+    let (r2, l2) = (returned.clone(), late.clone());
+    let subscription = observable::create(move |mut subscriber: SubscriberThreads<_>| {
+      let _ = inside_tx.send(());
+      std::thread::sleep(Duration::from_millis(15));
+      subscriber.next(1);
+      subscriber.next(2);
+      let _ = fin_tx.send(());
+    })
+    .subscribe_on(pool.clone())
+    .subscribe(move |_: i32| {
+      if r2.load(Ordering::SeqCst) {
+        l2.fetch_add(1, Ordering::SeqCst);
+      }
+    });
+    if inside_rx.recv_timeout(Duration::from_secs(10)).is_err() {
+      return "the subscribing task never started".into();
+    }
+    subscription.unsubscribe();
+    returned.store(true, Ordering::SeqCst);
+    let _ = fin_rx.recv_timeout(Duration::from_secs(10));
+    if late.load(Ordering::SeqCst) > 0 {
+      return "the subscriber was called after unsubscribe() had returned".into();
+    }
+  }
+  "ok".into()
+}
